@@ -360,7 +360,7 @@ func genTotalCase(rt *rapid.T) (string, map[string]string, string) {
 		nargs := rapid.IntRange(0, 5).Draw(rt, "nargs")
 		args := make([]string, nargs)
 		for i := range args {
-			args[i] = rapid.SampledFrom([]string{"a", "1", "'s'", "a > 1", "b", "count()", "$left.a"}).Draw(rt, "arg")
+			args[i] = rapid.SampledFrom([]string{"a", "1", "'s'", "a > 1", "b", "count()", "$left.a", "isnull()", "not()", "strcat()", "iff(a)", "(isnotnull())"}).Draw(rt, "arg")
 		}
 		ctx := rapid.SampledFrom([]string{"T | where %s", "T | extend v = %s", "T | summarize %s by k", "T | summarize n = count() by %s", "T | project p = %s", "T | sort by %s", "T | take %s", "T | top 2 by %s", "T | join (U) on %s", "let v = %s; T | where v"}).Draw(rt, "arityctx")
 		src, class = fmt.Sprintf(ctx, name+"("+strings.Join(args, ", ")+")"), "builtin-arity"
